@@ -1194,6 +1194,20 @@ func c10BuildUniverse(r *mon.Run) *c10Universe {
 	for _, s := range c10Accepted {
 		u.add(&u.fixed, c10Proj(s), "fixed: accepted")
 	}
+	// results larger than the pools' initial buffer sizes (512 bytes for examples, 1024 for OpenAPI helpers):
+	// a grown pooled buffer is where "it was allocated just for this result" shortcuts go wrong
+	for _, n := range []int{40, 120, 300, 700} {
+		var items, members []string
+		for i := 0; i < n; i++ {
+			items = append(items, fmt.Sprintf("%d", 1000+i))
+			members = append(members, fmt.Sprintf("%q: %q", fmt.Sprintf("key%03d", i), strings.Repeat("v", 6+i%5)))
+		}
+		u.add(&u.fixed, c10Proj("["+strings.Join(items, ", ")+"]"), "fixed: accepted, large example")
+		u.add(&u.fixed, c10Proj("{"+strings.Join(members, ", ")+"}"), "fixed: accepted, large example")
+		u.add(&u.fixed, c10Proj(`{"wrap": [`+strings.Join(items, ", ")+`], "s": "`+strings.Repeat("x", n*3)+`"}`), "fixed: accepted, large example")
+		p := project{Root: `{"big": @big, "tail": [1, 2, 3]}`, Types: []typeDef{{Name: "@big", Text: "{" + strings.Join(members, ", ") + "}"}}}
+		u.add(&u.fixed, &c10Input{Kind: "proj", Project: &p}, "fixed: project, large example")
+	}
 	for _, s := range c10ScannerRejected {
 		u.add(&u.fixed, c10Proj(s), "fixed: scanner-rejected")
 	}
